@@ -14,6 +14,9 @@ TIMEOUT = 3000
 
 def generate(rng, tier):
     cs = ebcases.cases(rng, tier)
+    if os.environ.get("EB_FLAVOUR"):           # e.g. EB_FLAVOUR=asan: the whole encode/decode under ASan+UBSan
+        for c in cs:
+            c.flavour = os.environ["EB_FLAVOUR"]
     if os.environ.get("EB_THREADS", "1") != "0":
         cs += ebcases.concurrent_cases(rng, tier)
     if os.environ.get("EB_CORRUPT", "1") != "0":
